@@ -7,12 +7,16 @@ package main
 // whole to a fresh parser of a fresh interpreter.  TLC validates every case
 // against spec/ParseSession.tla through spec/ParseTrace.tla.
 //
-// One case per text:
-//   cls   the text as character classes (the alphabet of ParseSession.tla)
+// One case per text (everything but txt/strs as integers: reading strings is what costs TLC time):
+//   cls   the text as character classes (positions in parseClassNames = ClassNames of ParseTrace.tla)
 //   txt   the concrete text
-//   tab   interned results [status, nc, [printed expressions]]
+//   strs  the distinct printed expressions of the case
+//   tab   interned results [status 1 more|2 done|3 err|4 panic, nc, [positions in strs]]
 //   refs  [s, p, i]: substring (s,p] parsed whole by a fresh parser = tab[i]
-//   runs  [hist, hl, load, cuts, obs, stale] (see ParseTrace.tla)
+//   runs  [hist, hl, load, cuts, obs, stale, rk] (see ParseTrace.tla); hist indexes parseHists
+//
+// zv parse -part gen [-gen specs] | files | rand ; -replay FILE re-executes recorded cases
+// (same text, same histories, same cuts) and writes fresh observations.
 
 import (
 	"encoding/json"
